@@ -26,6 +26,8 @@ def main():
                 props.append(m.group(1))
         if not props:
             props = [m.group(1) for c in cb for m in [re.match(r"(C\d\d)", c)] if m][:1]
+        if not props and re.match(r"C\d\d", str(meta.get("property", ""))):
+            props = [meta["property"][:3]]
         if not props:
             print(mid, "SKIP (no caught_by)", flush=True)
             continue
